@@ -128,7 +128,9 @@ def parse_case(line):
         v = nx()
         assert v == s, (v, s)
 
-    c.arch, c.platform, c.time = ni(), ni(), ni()
+    a = ni()
+    c.arch, c.big_endian = a & 0xffff, a >> 16       # arch token + 65536: the whole dump is written big-endian
+    c.platform, c.time = ni(), ni()
     ex("T")
     c.threads = [dict(id=ni(), ck=ni(), ip=ni(), sp=ni(), sidx=ni(), sbase=ni()) for _ in range(ni())]
     ex("N")
@@ -481,6 +483,7 @@ class C14(PropBase):
             if misc and rng.chance(1, 5):
                 misc = (rng.choice([20, 23, 0, 4, 25, 45, 232, 1364]),) + misc[1:]
         c = Case()
+        c.big_endian = 1 if short_streams and rng.chance(1, 8) else 0
         c.bp_form = bp_form
         c.arch, c.platform, c.time = arch, platform, rng.choice([0, 1262805309, U32, rng.below(1 << 32)])
         c.threads, c.names, c.exc, c.bp, c.misc, c.status, c.mods, c.unl, c.mems = threads, names, exc, bp, misc, status, mods, unl, mems
@@ -489,6 +492,7 @@ class C14(PropBase):
         dist["with_exception"] = dist.get("with_exception", 0) + (exc is not None)
         dist["with_breakpad"] = dist.get("with_breakpad", 0) + (bp is not None)
         dist["exc_thread_is_dump_thread"] = dist.get("exc_thread_is_dump_thread", 0) + (exc is not None and dump_tid == exc["tid"])
+        dist["big_endian"] = dist.get("big_endian", 0) + c.big_endian
         dist["duplicate_ids"] = dist.get("duplicate_ids", 0) + (len(set(tids)) < len(tids))
         c.bits32, c.trunc = bits32, trunc
         return c
@@ -500,7 +504,7 @@ class C14(PropBase):
         z = dict(tid=0, code=0, flags=0, np=0, i0=0, i1=0, i2=0, addr=0, ck=0, ip=0, sp=0)
         e = exc or z
         lk = []          # membership is no longer handed to the model: it uses the tables regenerated from the source (gen_lk)
-        parts = ["%d %d %d" % (arch, platform, c.time), "T %d" % n]
+        parts = ["%d %d %d" % (arch + 65536 * getattr(c, "big_endian", 0), platform, c.time), "T %d" % n]
         parts += ["%d %d %d %d %d %d" % (t["id"], t["ck"], t["ip"], t["sp"], t["sidx"], t["sbase"]) for t in threads]
         parts.append("N %d" % len(names))
         parts += ["%d %d %d" % nm for nm in names]
@@ -549,7 +553,7 @@ class C14(PropBase):
     def canon_impl(self, case, ans, profile):
         if ans.startswith("P;;"):
             return "P;;"
-        arch = int(case.split(" ", 1)[0])
+        arch = int(case.split(" ", 1)[0]) & 0xffff
         c = parse_case(case)
         d = split_answer(ans)
         th = []
@@ -569,7 +573,7 @@ class C14(PropBase):
         return x != "-" and int(x.split(":")[1]) not in (25, 26, 27, 29)
 
     def canon_model(self, case, ans):
-        arch = int(case.split(" ", 1)[0])
+        arch = int(case.split(" ", 1)[0]) & 0xffff
         wsize = 8 if arch in ARCH_WORD8 else 4
         d = split_answer(ans)
         th = []
